@@ -106,9 +106,6 @@ void vp_ctx_new_fp(int i) { new (&CTXV(i)) ctx_t(ctx_t::bound, ctx_t::default_tr
 void vp_set_current(int t, int cur) { set_current(t, &CTXV(cur)); }
 // sequential history step: bind context i on thread t through the real bind_to
 void vp_bind_seq(int i, int t) { task_group_context_impl::bind_to(CTXV(i), &TDV(t)); }
-unsigned vp_cancel_seq(int i) { return CTXV(i).cancel_group_execution(); }
-void vp_reset_seq(int i) { CTXV(i).reset(); }
-void vp_destroy_seq(int i) { CTXV(i).~ctx_t(); }
 
 // ---- thread bodies
 void vp_thr_bind(ctx_t* c, thread_data* td, int tid) {
